@@ -366,4 +366,31 @@ theorem wrapSeq_mem (m : Mode) (v : Val) (vs : List Val) (hl : isList v = false)
       · cases hw
       · cases hw; simp
 
+/-! ### forbidden additional keys -/
+
+theorem failIf_ok {β} (b : Bool) (o : Out β × Nat) (r : β) :
+    (failIf b o).1 = .ok r ↔ b = false ∧ o.1 = .ok r := by
+  rcases o with ⟨o, n⟩
+  cases b <;> cases o <;> simp [failIf]
+
+theorem failIf_snd {β} (b : Bool) (o : Out β × Nat) : (failIf b o).2 = o.2 := by
+  rcases o with ⟨o, n⟩
+  cases b <;> cases o <;> rfl
+
+theorem failIf_false {β} (o : Out β × Nat) : failIf false o = o := rfl
+
+theorem failIf_isOk_false {β} (b : Bool) (o : Out β × Nat) (h : o.1.isOk = false) : (failIf b o).1.isOk = false := by
+  rcases o with ⟨o, n⟩
+  cases b <;> cases o <;> simp_all [failIf, Out.isOk]
+
+theorem failIf_good {β} (w : β → Bool) (b : Bool) (o o' : Out β × Nat) (h : Good w o.1 o'.1) :
+    Good w (failIf b o).1 (failIf b o').1 := by
+  cases b with
+  | false => exact h
+  | true =>
+    constructor
+    · intro r hr; simp [failIf_ok] at hr
+    · intro r hr; simp [failIf_ok] at hr
+
 end Utv.C18
+
